@@ -41,6 +41,7 @@ def run(ctx):
         units = [u for u in families.all_member_units(M) if u.family in SCAN_FAMILIES or u.container == "group"]
         for u in units:
             rule_cont(ctx, M, u)
+            rule_no_bailout(ctx, M, u)
             rule_cover(ctx, M, u)
             if u.member is not None:
                 rule_arm0(ctx, M, u)
@@ -111,6 +112,44 @@ def rule_cont(ctx, M, u):
                 "returns a stale Pending value" if stale else "never returns to the scan loop")
             ctx.fail("C20.CONT", u.where, "%s Pending => %s instead of continuing the scan" % (label, why), site=site.where,
                      path=common.fmt_blocks(bi, bad_pending or stale))
+
+
+def rule_no_bailout(ctx, M, u):
+    """A scan may give up early (`return Poll::Pending` from inside the loop) only because nothing is flagged ready any
+    more (`!readiness.any_ready()`): a poll budget, a queue bound or any other early exit leaves flagged children
+    unpolled with nobody to wake the task again (and a self-wake would still make every caller spin)."""
+    bi = u.bi
+    body = bi.body
+    sites = scan_sites(M, u)
+    loops = {}
+    for block, label, site, avoid, loop in sites:
+        if loop is not None:
+            loops[loop[0]] = loop
+    if not loops:
+        return
+    pend = set(common.pending_blocks(bi))
+    quiet = []
+    for s in scan.any_ready_sites(bi):
+        quiet += bi.outcome_edges(s, False)
+    bad = []
+    from . import racelike
+    exit_e = list(racelike.scan_exit_edges(u))
+    for header, lblocks in loops.values():
+        # exhaustion of whatever iterator drives this loop
+        for e in bi.switches:
+            s_ = e["subject"]
+            if e["block"] in lblocks and e["kind"] == "discr" and s_[0] == "call" and s_[1][1] in ("next", "next_back"):
+                ed = bi.edge(e, "None")
+                if ed and ed not in exit_e:
+                    exit_e.append(ed)
+        # Pending values built on a way out of the loop that is neither the exhaustion of the scan's iterator nor the
+        # "nothing flagged" test: reachable from the header within one iteration while avoiding both
+        r = body.reach(body.succs(header), avoid_edges=list(exit_e) + list(quiet), stop_blocks=[header])
+        for b in sorted(pend):
+            if b in r and b != header:
+                bad.append(b)
+    ctx.check(not bad, "C20.CONT", u.where, "inside the scan Pending is returned only when no child is flagged ready (no budget / bound bails out of the scan)",
+              site=u.body.span, path=common.fmt_blocks(bi, bad))
 
 
 def stale_pending_returns(bi, pe, header, avoid, r_in):
